@@ -17,8 +17,21 @@ struct Config
 
 static const std::vector<std::string>& env_values(bool reduced)
 {
-    static const std::vector<std::string> full = { "x",     "a b",      "a=b",  "--a=b", "-5",    "-",       "--",  "a;b",
-                                                   "-5;--x=y", "a;;b", "TRUE", "0",     "maybe", "\xff\x80", "a\nb", "--tog", "-t" };
+    static const std::vector<std::string> full = [] {
+        std::vector<std::string> v = { "x",     "a b",      "a=b",  "--a=b", "-5",    "-",       "--",  "a;b",
+                                       "-5;--x=y", "a;;b", "TRUE", "0",     "maybe", "\xff\x80", "a\nb", "--tog", "-t" };
+        // sizes and particular bytes: around the short-string / small-buffer thresholds, many list elements, characters that
+        // are special to other layers
+        for (size_t n : { 15u, 16u, 17u, 255u, 256u, 4097u })
+            v.push_back(std::string(n, 'e'));
+        std::string many;
+        for (int i = 0; i < 300; i++)
+            many += (i ? ";" : "") + std::string("e") + std::to_string(i);
+        v.push_back(many);
+        for (auto sp : { "%s", "$HOME", "a\\b", "a\tb", "a\rb", "\x7f", "a,b", "a:b", "\"q\"", "'q'", " lead", "trail " })
+            v.push_back(sp);
+        return v;
+    }();
     static const std::vector<std::string> red = { "x", "--a=b", "-5", "a;b", "TRUE", "maybe" };
     return reduced ? red : full;
 }
